@@ -1,8 +1,8 @@
-(* C07 — open handles stay bound to their stream and never touch other objects.  Statements are printed by Check below and compared with C07.expected; proofs in proofs/DirProofs.v (removal by relinking keeps every surviving entry's id and payload) and proofs/ChainProofs.v (writing one chain never changes another).  Handles hold entry ids.  Also proved (proofs/HandleFrame.v): every store call made by a handle operation is on the handle's own id (handle_calls_own_id, over an arbitrary store); UNCONDITIONALLY and in every outcome a handle operation leaves all other handle slots and every directory entry except its own and the root's untouched, and changes of those two only start sector and length (the root entry records the mini-stream container) - name, type, links, colour, CLSID, state bits and timestamps of every entry are unchanged; in the store cases that allocate and free nothing (overwrite, growth and shrinking inside the sectors the stream has, small and large) every OTHER stream keeps its content, the root entry is unchanged, and the global disjointness invariant AllStreamsWf is preserved, so the statement composes along a run; for FAT-changing resizes of large streams the other large streams keep their content; the table represents the abstract tree with only that leaf updated.  NOT proved: other streams through writes that allocate, mini-sector allocation / freeing, migrations across the 4096 cutoff (checked by multi-handle lockstep histories). *)
+(* C07 — open handles stay bound to their stream and never touch other objects.  Statements are printed by Check below and compared with C07.expected; proofs in proofs/DirProofs.v (removal by relinking keeps every surviving entry's id and payload) and proofs/ChainProofs.v (writing one chain never changes another).  Handles hold entry ids.  Also proved (proofs/HandleFrame.v): every store call made by a handle operation is on the handle's own id (handle_calls_own_id, over an arbitrary store); UNCONDITIONALLY and in every outcome a handle operation leaves all other handle slots and every directory entry except its own and the root's untouched, and changes of those two only start sector and length (the root entry records the mini-stream container) - name, type, links, colour, CLSID, state bits and timestamps of every entry are unchanged; in the store cases that allocate and free nothing (overwrite, growth and shrinking inside the sectors the stream has, small and large) every OTHER stream keeps its content, the root entry is unchanged, and the global disjointness invariant AllStreamsWf is preserved, so the statement composes along a run; for FAT-changing resizes of large streams the other large streams keep their content; the table represents the abstract tree with only that leaf updated.  Also proved (proofs/DataFrame.v, on top of DataPersist2): the frame in ALL covered store cases - the 11 resize cases and 6 write cases with allocation, release, mini-sector allocation / freeing and both migrations across the 4096 cutoff, and removal of streams with data - every other stream keeps its content, every other entry its metadata, every other handle its slot; lifted to every history of hist_ok2: a stream no operation addresses keeps content and metadata through the whole history, reopen included.  NOT proved: cases outside hist_ok2 (growth needing a new FAT / DIFAT / container sector inside the data cases; creations inside data histories) - checked by multi-handle lockstep histories. *)
 From Cfb.model Require Import Base Names DirEnt State Alloc Dir Mini Store Handle Open Cfb.
 From Cfb.gen Require Import Consts.
 From Cfb.spec Require Import Tree.
-From Cfb.proofs Require Import DirProofs ChainProofs QueryRefine HandleFrame.
+From Cfb.proofs Require Import DirProofs ChainProofs QueryRefine HandleFrame DataFrame.
 Set Printing Width 110.
 
 (* for EVERY table: removing an entry frees exactly its own slot; every other slot keeps name, type, start sector, length, CLSID, state bits and times (only sibling links / colour may change) *)
@@ -82,6 +82,60 @@ Theorem C07_tree_after_a_handle_op : ltac:(let t := type of handle_op_tree in ex
 Proof. exact handle_op_tree. Qed.
 Check C07_tree_after_a_handle_op.
 Print Assumptions C07_tree_after_a_handle_op.
+
+(* DataFrame: ALL 11 resize cases (allocation, release, truncation, first growth, both migrations): the call succeeds, every OTHER stream keeps its content, the stream itself holds resized V n *)
+Theorem C07_every_resize_case_frames_other_streams : ltac:(let t := type of resize_case_frames in exact t).
+Proof. exact resize_case_frames. Qed.
+Check C07_every_resize_case_frames_other_streams.
+Print Assumptions C07_every_resize_case_frames_other_streams.
+
+(* ALL 6 write cases incl. mini-sector allocation and migration by write: others kept, own content = splice *)
+Theorem C07_every_write_case_frames_other_streams : ltac:(let t := type of write_case_frames in exact t).
+Proof. exact write_case_frames. Qed.
+Check C07_every_write_case_frames_other_streams.
+Print Assumptions C07_every_write_case_frames_other_streams.
+
+(* THE PROPERTY at the level of step over covered_op2: other entries identical, metadata of every entry unchanged, every other stream's content kept, other handle slots untouched - through allocation, mini-sector allocation / freeing and both migrations *)
+Theorem C07_handle_ops_frame_other_streams_in_all_covered_cases : ltac:(let t := type of handle_op_frames_others_full in exact t).
+Proof. exact handle_op_frames_others_full. Qed.
+Check C07_handle_ops_frame_other_streams_in_all_covered_cases.
+Print Assumptions C07_handle_ops_frame_other_streams_in_all_covered_cases.
+
+(* the table represents the abstract tree with only the handle's leaf updated *)
+Theorem C07_tree_after_a_handle_op_in_all_covered_cases : ltac:(let t := type of handle_op_tree_full in exact t).
+Proof. exact handle_op_tree_full. Qed.
+Check C07_tree_after_a_handle_op_in_all_covered_cases.
+Print Assumptions C07_tree_after_a_handle_op_in_all_covered_cases.
+
+(* remove_stream of a large, small or empty stream in a file with data keeps every other stream *)
+Theorem C07_removal_with_data_frames_other_streams : ltac:(let t := type of remove_stream_frames_full in exact t).
+Proof. exact remove_stream_frames_full. Qed.
+Check C07_removal_with_data_frames_other_streams.
+Print Assumptions C07_removal_with_data_frames_other_streams.
+
+(* and the table represents remove_at t names *)
+Theorem C07_removal_with_data_refines_the_specification : ltac:(let t := type of remove_stream_tree_full in exact t).
+Proof. exact remove_stream_tree_full. Qed.
+Check C07_removal_with_data_refines_the_specification.
+Print Assumptions C07_removal_with_data_refines_the_specification.
+
+(* a stream that no operation of the history addresses keeps its content through ANY history of hist_ok2 (allocation, release, migrations of other streams, removals, reopen) *)
+Theorem C07_untouched_streams_keep_their_content_through_any_covered_history : ltac:(let t := type of data_history_frames in exact t).
+Proof. exact data_history_frames. Qed.
+Check C07_untouched_streams_keep_their_content_through_any_covered_history.
+Print Assumptions C07_untouched_streams_keep_their_content_through_any_covered_history.
+
+(* name, type, start, length, CLSID, state bits, timestamps *)
+Theorem C07_untouched_entries_keep_their_metadata_through_any_covered_history : ltac:(let t := type of data_history_entry_frames in exact t).
+Proof. exact data_history_entry_frames. Qed.
+Check C07_untouched_entries_keep_their_metadata_through_any_covered_history.
+Print Assumptions C07_untouched_entries_keep_their_metadata_through_any_covered_history.
+
+(* non-vacuity: while /b migrates large-to-small, /c keeps its 70 bytes and /d stays empty *)
+Theorem C07_frame_example_through_migrations : ltac:(let t := type of DataFrame.ExampleB.migration_3b_frames_others in exact t).
+Proof. exact DataFrame.ExampleB.migration_3b_frames_others. Qed.
+Check C07_frame_example_through_migrations.
+Print Assumptions C07_frame_example_through_migrations.
 
 (* non-vacuity: write + flush through a small stream's handle leaves a 5000-byte stream, its entry, the root entry and the other handle as they were *)
 Theorem C07_frame_example_small_vs_large : ltac:(let t := type of Example.flush_a_keeps_b in exact t).
